@@ -182,7 +182,7 @@ def sock_case(draw):
     # how "a consumer failed" comes about: a consumer whose consume() raises (in-memory), or RabbitMQ cancelling the
     # consumer server-side because its queue was deleted, so that the consumer's restart is refused
     return {"endpoint": endpoint, "steps": steps, "slow_stop": draw(st.booleans()),
-            "backend": draw(st.sampled_from(["mem", "mem", "amqp-queue-deleted"]))}
+            "backend": draw(st.sampled_from(["mem", "mem", "amqp-queue-deleted"])), "idle_worker": draw(st.integers(0, 3)) == 0}
 
 
 def free_port() -> int:
@@ -284,6 +284,21 @@ async def _sock(case: dict, out: Outcome):
     ep = case["endpoint"]
     w = Worker(routers=[router], run_health_check_server=True, graceful_shutdown_time=1.0,
                health_check_server_settings=HealthCheckServerSettings(address="127.0.0.1", port=port, endpoint_name=ep), _connection=conn)
+    if case.get("idle_worker"):
+        # a worker with nothing to run returns at once: its health port must not stay open behind it
+        port0 = free_port()
+        w0 = Worker(routers=[], run_health_check_server=True,
+                    health_check_server_settings=HealthCheckServerSettings(address="127.0.0.1", port=port0, endpoint_name=ep), _connection=conn)
+        try:
+            await asyncio.wait_for(w0.run(), timeout=5.0)
+        except asyncio.TimeoutError:
+            out.v("worker-stuck", "a worker without actors did not return from run()")
+        await asyncio.sleep(0.05)
+        try:
+            await http(port0, f"GET {ep} HTTP/1.1\r\n\r\n".encode(), timeout=1.0)
+            out.v("port-open-after-run", "the health port of a worker without actors still accepts connections after run() returned")
+        except (OSError, asyncio.TimeoutError):
+            pass
     # closed before run()
     try:
         await http(port, f"GET {ep} HTTP/1.1\r\n\r\n".encode(), timeout=1.0)
